@@ -145,12 +145,11 @@ func runMutant(self string, m Mutant, pr *Property, repo, verif string) core.Mut
 	}
 	defer os.RemoveAll(tmp)
 	dst := filepath.Join(tmp, "repo")
-	if out, err := exec.Command("cp", "-r", repo, dst).CombinedOutput(); err != nil {
+	if err := copyTree(repo, dst); err != nil {
 		res.Status = "skipped"
-		res.Why = "copy failed: " + string(out)
+		res.Why = "copy failed: " + err.Error()
 		return res
 	}
-	_ = os.RemoveAll(filepath.Join(dst, ".git"))
 	if m.Patch != "" {
 		cmd := exec.Command("patch", "-p1", "-s", "--no-backup-if-mismatch", "-i", filepath.Join(verif, m.Patch))
 		cmd.Dir = dst
@@ -223,3 +222,43 @@ func lastLines(s string, n int) string {
 }
 
 var _ = fmt.Sprintf
+
+// copyTree copies the working tree without its .git directory (which other processes may be updating).
+func copyTree(src, dst string) error {
+	return filepath.Walk(src, func(path string, info os.FileInfo, err error) error {
+		if err != nil {
+			if os.IsNotExist(err) {
+				return nil
+			}
+			return err
+		}
+		rel, _ := filepath.Rel(src, path)
+		if rel == ".git" || strings.HasPrefix(rel, ".git"+string(filepath.Separator)) {
+			if info.IsDir() {
+				return filepath.SkipDir
+			}
+			return nil
+		}
+		target := filepath.Join(dst, rel)
+		switch {
+		case info.IsDir():
+			return os.MkdirAll(target, 0o755)
+		case info.Mode()&os.ModeSymlink != 0:
+			l, err := os.Readlink(path)
+			if err != nil {
+				return nil
+			}
+			return os.Symlink(l, target)
+		case info.Mode().IsRegular():
+			b, err := os.ReadFile(path)
+			if err != nil {
+				if os.IsNotExist(err) {
+					return nil
+				}
+				return err
+			}
+			return os.WriteFile(target, b, info.Mode().Perm())
+		}
+		return nil
+	})
+}
